@@ -7,5 +7,7 @@ CONSTANTS
   FrameChunks = 1
   MaxMig = 2
   Serial = FALSE
+  Requesters = {1, 2}
+  AcceptGuard = "handling"
 PROPERTIES Progress
 CHECK_DEADLOCK FALSE
